@@ -55,6 +55,7 @@ def repo_tree_hash():
 
 def framework_hash():
     h = hashlib.sha256()
+    h.update(open(os.path.join(COQ, '_CoqProject'), 'rb').read())
     for root in (os.path.join(VERIF, 'harness', 'bbv'), os.path.join(COQ, 'theories'),
                  os.path.join(XLATE_DIR, 'src')):
         for dp, dn, fn in os.walk(root):
@@ -234,10 +235,21 @@ def cargo_check(ws, spans):
             continue
         hit = None
         for s in prim:
-            ln = s['line_start']
-            for name, (a, b) in spans.items():
-                if a <= ln <= b and s['file_name'].endswith('lib.rs'):
-                    hit = name
+            # follow macro expansion back to the call site inside the corpus file
+            chain = []
+            cur = s
+            while cur is not None:
+                chain.append(cur)
+                cur = (cur.get('expansion') or {}).get('span')
+            for c in chain:
+                if not c['file_name'].endswith('lib.rs'):
+                    continue
+                ln = c['line_start']
+                for name, (a, b) in spans.items():
+                    if a <= ln <= b:
+                        hit = name
+                        break
+                if hit:
                     break
             if hit:
                 break
@@ -371,7 +383,7 @@ def coq_program(name, xj):
 # ------------------------------------------------------------------------------------------------
 # stage: Coq obligations
 
-CASE_HEADER = '''From BB Require Import Bits Expr Sym Spec Validate Prog.
+CASE_HEADER = '''From BB Require Import Bits Expr Sym Spec Validate Enum Prog.
 Open Scope N_scope.
 Open Scope string_scope.
 Set Printing Width 100000.
@@ -388,18 +400,24 @@ def stage_obligations(ws, ds, verdicts, xl):
     shutil.rmtree(cdir, ignore_errors=True)
     os.makedirs(cdir)
     acc = set(verdicts['accepted'])
-    todo = [d for d in ds if d['kind'] == 'bitfield' and d['name'] in acc and d['name'] in xl]
+    todo = [d for d in ds if d['name'] in acc and d['name'] in xl and not d.get('unstructured')]
     shards = [todo[i::NSHARDS] for i in range(NSHARDS)]
     shards = [s for s in shards if s]
 
     def do_shard(k):
         sh = shards[k]
         src = [CASE_HEADER]
+        entries = []
         for d in sh:
-            src.append('Definition d_%s : decl :=\n  %s.' % (d['name'], decls.coq_decl(d)))
-            src.append('Definition p_%s : program :=\n  %s.' % (d['name'], coq_program(d['name'], xl[d['name']])))
-        src.append('Definition all_obligations : list (string * list (string * bool)) := [\n  %s].' % ';\n  '.join(
-            '(%s, obligations d_%s p_%s)' % (translate.cstr(d['name']), d['name'], d['name']) for d in sh))
+            if d['kind'] == 'bitfield':
+                src.append('Definition d_%s : decl :=\n  %s.' % (d['name'], decls.coq_decl(d)))
+                src.append('Definition p_%s : program :=\n  %s.' % (d['name'], coq_program(d['name'], xl[d['name']])))
+                entries.append('(%s, obligations d_%s p_%s)' % (translate.cstr(d['name']), d['name'], d['name']))
+            else:
+                src.append('Definition e_%s : enum_decl :=\n  %s.' % (d['name'], decls.coq_enum(d)))
+                src.append('Definition ep_%s : enum_prog :=\n  %s.' % (d['name'], translate.coq_enum_prog(d['name'], xl[d['name']])))
+                entries.append('(%s, check_enum e_%s ep_%s)' % (translate.cstr(d['name']), d['name'], d['name']))
+        src.append('Definition all_obligations : list (string * list (string * bool)) := [\n  %s].' % ';\n  '.join(entries))
         src.append('Definition report := Eval vm_compute in all_obligations.')
         src.append('Print report.')
         src.append('Theorem run_ok : forallb (fun r => forallb snd (snd r)) all_obligations = true.')
@@ -430,6 +448,39 @@ def stage_obligations(ws, ds, verdicts, xl):
     return out
 
 
+def stage_decisions(ws, ds):
+    """the rule (valid_decl / valid_enum) and the model of the macro's decision (accept_decl / enum_accept),
+    evaluated inside Coq for every structured declaration -> {name: [valid, accept]}"""
+    if ws.done('decisions'):
+        return ws.load('decisions')
+    t0 = time.time()
+    cdir = ws.path('coqd')
+    shutil.rmtree(cdir, ignore_errors=True)
+    os.makedirs(cdir)
+    todo = [d for d in ds if not d.get('unstructured')]
+    src = ['From BB Require Import Bits Spec Parse Enum.', 'From Coq Require Import String.', 'Open Scope N_scope.', 'Open Scope string_scope.',
+           'Set Printing Width 100000.', 'Set Printing Depth 1000000.']
+    entries = []
+    for d in todo:
+        if d['kind'] == 'bitfield':
+            entries.append('(%s, valid_decl %s, accept_decl %s)' % (translate.cstr(d['name']), decls.coq_decl(d), decls.coq_decl(d)))
+        else:
+            entries.append('(%s, valid_enum %s, enum_accept %s)' % (translate.cstr(d['name']), decls.coq_enum(d), decls.coq_enum(d)))
+    src.append('Definition decisions := Eval vm_compute in [\n  %s].' % ';\n  '.join(entries))
+    src.append('Print decisions.')
+    fn = os.path.join(cdir, 'decisions.v')
+    open(fn, 'w').write('\n'.join(src) + '\n')
+    p = run(['coqc', '-noglob', '-Q', os.path.join(COQ, 'theories'), 'BB', fn], cwd=cdir, timeout=3000)
+    res = {}
+    for m in re.finditer(r'\("([^"]*)",\s*(true|false),\s*(true|false)\)', p.stdout):
+        res[m.group(1)] = [m.group(2) == 'true', m.group(3) == 'true']
+    if len(res) != len(todo):
+        raise RuntimeError('cannot parse decisions output (%d of %d)' % (len(res), len(todo)))
+    out = {'decisions': res, 'wall_s': time.time() - t0}
+    ws.mark('decisions', out)
+    return out
+
+
 def parse_report(out):
     m = re.search(r'report\s*=\s*(\[.*?\])\s*:\s*list', out, re.S)
     if not m:
@@ -454,11 +505,11 @@ def parse_coq_lists(txt):
     return json.loads(txt)
 
 
-def build_runner(ws, todo, by_name):
+def build_runner(ws, todo, by_name, enums=()):
     """build src/bin/runner.rs for the declarations in `todo` in the dev and release profiles"""
     os.makedirs(ws.path('crate', 'src', 'bin'), exist_ok=True)
     from . import runner
-    open(ws.path('crate', 'src', 'bin', 'runner.rs'), 'w').write(runner.runner_source(todo, by_name))
+    open(ws.path('crate', 'src', 'bin', 'runner.rs'), 'w').write(runner.runner_source(todo, by_name, enums))
     env = {'BITBYBIT_VERIF_DUMP_DIR': ws.path('dumps2'), 'CARGO_TARGET_DIR': ws.target}
     os.makedirs(ws.path('dumps2'), exist_ok=True)
     run(['cargo', 'build', '--offline', '--bin', 'runner'], cwd=ws.path('crate'), env=env, timeout=3000)
@@ -523,7 +574,7 @@ def behaviour_compare(ws, todo, allcases, by_name, xl, subdir, max_mism=200):
 
     def do_shard(k):
         sh = shards[k]
-        src = [CASE_HEADER.replace('Validate Prog.', 'Validate Prog Run.')]
+        src = [CASE_HEADER.replace('Enum Prog.', 'Enum Prog Run.')]
         for d in sh:
             src.append('Definition d_%s : decl :=\n  %s.' % (d['name'], decls.coq_decl(d)))
             src.append('Definition p_%s : program :=\n  %s.' % (d['name'], coq_program(d['name'], xl[d['name']])))
@@ -614,6 +665,118 @@ def behaviour_compare(ws, todo, allcases, by_name, xl, subdir, max_mism=200):
             'mismatches': mism, 'n_mismatches': n_m}
 
 
+def enum_inputs(d, rng, tier):
+    n = d['bits']
+    lim = 8 if tier == 'quick' else 14
+    if n <= lim:
+        return list(range(1 << n))
+    m = (1 << n) - 1
+    xs = {0, 1, m, m - 1, m >> 1, 1 << (n - 1)}
+    for v in d['variants']:
+        if v.get('discr') is not None:
+            for y in (v['discr'] - 1, v['discr'], v['discr'] + 1):
+                if 0 <= y <= m:
+                    xs.add(y)
+    for _ in range(20 if tier == 'quick' else 200):
+        xs.add(rng.getrandbits(n))
+    return sorted(xs)
+
+
+def enum_compare(ws, enums, xl, tier, seed):
+    """bitenum conversions: compiled code (dev, release) vs enum_new on the declaration vs the translated match"""
+    import random
+    if not enums:
+        return {'enums': 0, 'conversions': 0, 'mismatches': [], 'n_mismatches': 0}
+    inputs = {}
+    lines = []
+    for d in enums:
+        rng = random.Random('enum|%s|%s' % (seed, d['name']))
+        xs = enum_inputs(d, rng, tier)
+        inputs[d['name']] = xs
+        lines.append('E %s' % d['name'])
+        lines.append('V')
+        for x in xs:
+            lines.append('X %x' % x)
+    cdir = ws.path('coqe')
+    shutil.rmtree(cdir, ignore_errors=True)
+    os.makedirs(cdir)
+    cf = os.path.join(cdir, 'cases.txt')
+    open(cf, 'w').write('\n'.join(lines) + '\n')
+    outs = {}
+    for prof in ('dev', 'release'):
+        p = subprocess.run([ws.path('runner-' + prof)], stdin=open(cf), stdout=subprocess.PIPE, stderr=subprocess.PIPE, text=True,
+                           timeout=3000)
+        if p.returncode != 0:
+            raise RuntimeError('runner (%s) failed: %s' % (prof, p.stderr[-2000:]))
+        o = p.stdout.split('\n')
+        if o and o[-1] == '':
+            o.pop()
+        if len(o) != len(lines):
+            raise RuntimeError('runner (%s) produced %d lines for %d inputs' % (prof, len(o), len(lines)))
+        outs[prof] = o
+    shards = [enums[i::NSHARDS] for i in range(NSHARDS)]
+    shards = [s for s in shards if s]
+
+    def do_shard(k):
+        src = ['From BB Require Import Bits Enum.', 'From Coq Require Import String.', 'Open Scope N_scope.', 'Open Scope string_scope.',
+               'Set Printing Width 100000.', 'Set Printing Depth 1000000.']
+        for d in shards[k]:
+            n = d['name']
+            src.append('Definition e_%s : enum_decl := %s.' % (n, decls.coq_enum(d)))
+            src.append('Definition ep_%s : enum_prog := %s.' % (n, translate.coq_enum_prog(n, xl[n])))
+            src.append('Definition r_%s := Eval vm_compute in map (fun x => (encode_new e_%s (enum_new e_%s x), '
+                       'encode_new e_%s (ep_new ep_%s (live_name e_%s) x))) [%s].' % (n, n, n, n, n, n, '; '.join(str(x) for x in inputs[n])))
+            src.append('Print r_%s.' % n)
+        fn = os.path.join(cdir, 'enum_%d.v' % k)
+        open(fn, 'w').write('\n'.join(src) + '\n')
+        p = run(['coqc', '-noglob', '-Q', os.path.join(COQ, 'theories'), 'BB', fn], cwd=cdir, check=False, timeout=3000)
+        return k, p.returncode, p.stdout, p.stderr
+
+    model = {}
+    with ThreadPoolExecutor(max_workers=16) as ex:
+        for k, rc, out, err in ex.map(do_shard, range(len(shards))):
+            if rc != 0:
+                raise RuntimeError('coqc failed on enum shard %d:\n%s' % (k, err[-3000:]))
+            for m in re.finditer(r'r_(\w+)\s*=\s*(\[.*?\])\s*:\s*list', out, re.S):
+                model[m.group(1)] = parse_coq_lists(m.group(2))
+    mism = []
+    nconv = 0
+    stats = {'ok': 0, 'err': 0, 'panic': 0, 'variants': 0}
+    pos = 0
+    for d in enums:
+        n = d['name']
+        pos += 1  # E
+        vnames = [v['name'] for v in d['variants']]
+        # raw values of the variants that exist
+        expect_raws = ','.join('%s=%x' % (v['name'], decls.discr_value(v)) for v in d['variants'] if v.get('cfg') != 'any')
+        for prof in outs:
+            if outs[prof][pos] != expect_raws:
+                mism.append({'decl': n, 'what': 'raw_value() of the variants differs from the discriminants', 'profile': prof,
+                             'rust': outs[prof][pos], 'expected': expect_raws})
+        stats['variants'] += len(vnames)
+        pos += 1
+        for xi, x in enumerate(inputs[n]):
+            nconv += 1
+            t1, a1, (t2, a2) = model[n][xi]
+
+            def show(t, a):
+                return 'ok:%s' % vnames[a] if t == 0 and a < len(vnames) else 'err:%x' % a if t == 1 else 'P'
+            m1, m2 = show(t1, a1), show(t2, a2)
+            rd, rr = outs['dev'][pos], outs['release'][pos]
+            if rd.startswith('ok'):
+                stats['ok'] += 1
+            elif rd.startswith('err'):
+                stats['err'] += 1
+            else:
+                stats['panic'] += 1
+            if not (rd == rr == m1 == m2):
+                if len(mism) < 100:
+                    mism.append({'decl': n, 'x': x, 'what': 'new_with_raw_value(x) differs', 'rust_dev': rd, 'rust_release': rr,
+                                 'model_decl': m1, 'model_translated': m2})
+            pos += 1
+    return {'enums': len(enums), 'conversions': nconv, 'stats': stats, 'mismatches': mism, 'n_mismatches': len(mism)}
+
+
 def stage_behaviour(ws, ds, verdicts, xl):
     if ws.done('behaviour'):
         return ws.load('behaviour')
@@ -622,17 +785,20 @@ def stage_behaviour(ws, ds, verdicts, xl):
     t0 = time.time()
     by_name = {d['name']: d for d in ds}
     acc = set(verdicts['accepted'])
-    todo = [d for d in ds if d['kind'] == 'bitfield' and d['name'] in acc and d['name'] in xl]
-    build_runner(ws, todo, by_name)
+    todo = [d for d in ds if d['kind'] == 'bitfield' and d['name'] in acc and d['name'] in xl and not d.get('unstructured')]
+    enums = [d for d in ds if d['kind'] == 'enum' and d['name'] in acc and d['name'] in xl]
+    build_runner(ws, todo, by_name, enums)
     t_build = time.time() - t0
     allcases = {}
     for d in todo:
         rng = random.Random('%s|%s' % (ws.seed, d['name']))
         allcases[d['name']] = cases.gen_cases(d, by_name, rng, ws.tier)
     res = behaviour_compare(ws, todo, allcases, by_name, xl, 'coqb')
+    res['enum'] = enum_compare(ws, enums, xl, ws.tier, ws.seed)
     res['wall_s'] = time.time() - t0
     res['build_s'] = t_build
     ws.mark('behaviour', res)
-    log('behaviour: %d programs, %d scenarios, %d ops, %d mismatches, %.1fs (build %.1fs)' % (
-        res['programs'], res['scenarios'], res['ops'], res['n_mismatches'], res['wall_s'], t_build))
+    log('behaviour: %d programs, %d scenarios, %d ops, %d mismatches; %d enums, %d conversions, %d mismatches; %.1fs (build %.1fs)' % (
+        res['programs'], res['scenarios'], res['ops'], res['n_mismatches'], res['enum']['enums'], res['enum']['conversions'],
+        res['enum']['n_mismatches'], res['wall_s'], t_build))
     return res
